@@ -98,7 +98,7 @@ where
             .ok_or(DecodeError::MessageReadError)?;
 
         Ok(DataMessage {
-            is_prioritized: false,
+            is_prioritized: flags.is_prioritized(),
             length: maybe_length,
             tunnel_id,
             session_id,
